@@ -216,6 +216,8 @@ func c04Families(c *Check) []BashCase {
 		"exists-then-create": {fn("create", []Param{{"p", TString}}, []Type{TBool}, IncDec{"cnt", true}, Write{Path: vr("p"), Data: sl("made")}, ret(bl(true))), pr(Exists{sl("late.txt")}, call("create", sl("late.txt")), Exists{sl("late.txt")}), def("both", logic("||", Exists{sl("late2.txt")}, Not{call("create", sl("late2.txt"))})), pr(vr("both"))},
 		"read-then-change":   {fn("change", []Param{{"p", TString}}, []Type{TString}, IncDec{"cnt", true}, Write{Path: vr("p"), Data: sl("new")}, ret(sl("changed"))), Write{Path: sl("doc.txt"), Data: sl("old")}, pr(Read{sl("doc.txt")}, call("change", sl("doc.txt")), Read{sl("doc.txt")}), def("j", bin("+", bin("+", Read{sl("doc.txt")}, call("change", sl("doc.txt"))), Itoa{Len{Read{sl("doc.txt")}}})), pr(vr("j"))},
 	}
+	fsCases["write-operands-in-order"] = []Stmt{Write{Path: Sf(1, "j.txt"), Data: Sf(2, "one"), Append: Bf(3, false)}, Write{Path: Sf(4, "j.txt"), Data: Sf(5, "two"), Append: Bf(6, true)}, Write{Path: bin("+", Sf(7, "j"), Sf(8, ".txt")), Data: bin("+", Sf(9, "th"), Sf(10, "ree")), Append: logic("||", Bf(11, false), Bf(12, true))}, pr(Read{sl("j.txt")}), pr(Exists{Sf(13, "j.txt")}, Read{Sf(14, "j.txt")})}
+	fsCases["write-flag-decided-by-effect"] = []Stmt{fn("keep", []Param{{"p", TString}}, []Type{TBool}, IncDec{"cnt", true}, pr(sl("keep"), vr("cnt")), ret(cmp(">", vr("cnt"), il(2)))), fn("line", nil, []Type{TString}, IncDec{"cnt", true}, ret(bin("+", sl("entry "), Itoa{vr("cnt")}))), Write{Path: sl("journal.txt"), Data: call("line"), Append: call("keep", sl("journal.txt"))}, Write{Path: sl("journal.txt"), Data: call("line"), Append: call("keep", sl("journal.txt"))}, Write{Path: sl("journal.txt"), Data: call("line"), Append: call("keep", sl("journal.txt"))}, pr(Read{sl("journal.txt")})}
 	for _, k := range sortedStmtKeys(fsCases) {
 		cases = append(cases, BashCase{Key: "E/file-state/" + k + "/top", Prog: SingleFile(append(append(c04Prelude(), fsCases[k]...), final))})
 	}
@@ -250,6 +252,15 @@ func c04Families(c *Check) []BashCase {
 		"if-branch-holding-only-an-if/not-taken":  {If{Branches: []IfBranch{{Bf(1, false), []Stmt{If{Branches: []IfBranch{{Bf(2, true), []Stmt{pr(sl("inner"))}}}}}}}, HasElse: true, Else: []Stmt{pr(sl("E"))}}},
 		"loop-body-holding-only-an-if":            {def("i", il(0)), For{Kind: ForCond, Cond: cmp("<", vr("i"), il(2)), Body: []Stmt{IncDec{"i", true}, If{Branches: []IfBranch{{cmp("==", vr("i"), il(1)), []Stmt{pr(sl("one"))}}}, HasElse: true, Else: []Stmt{If{Branches: []IfBranch{{Bf(5, true), []Stmt{pr(sl("inner"), vr("i"))}}}}}}}}},
 		"case-body-holding-only-an-if":            {def("x", il(1)), Switch{Tag: vr("x"), Cases: []SwitchCase{{E: il(1), Body: []Stmt{pr(sl("c1"))}}, {Default: true, Body: []Stmt{If{Branches: []IfBranch{{Bf(2, true), []Stmt{pr(sl("inner"))}}}}}}}}},
+		"if-chain-empty-last-elseif":    {If{Branches: []IfBranch{{Bf(1, false), []Stmt{pr(sl("br1"))}}, {Bf(2, true), []Stmt{}}}}, pr(sl("after"))},
+		"if-chain-empty-trailing-elseifs": {If{Branches: []IfBranch{{Bf(1, false), []Stmt{pr(sl("br1"))}}, {Bf(2, false), []Stmt{}}, {Bf(3, false), []Stmt{}}}}, pr(sl("after"))},
+		"if-chain-empty-middle":         {If{Branches: []IfBranch{{Bf(1, false), []Stmt{}}, {Bf(2, false), []Stmt{}}, {Bf(3, true), []Stmt{pr(sl("br3"))}}}}, pr(sl("after"))},
+		"if-single-empty":               {If{Branches: []IfBranch{{Bf(1, true), []Stmt{}}}}, If{Branches: []IfBranch{{cmp("<", T(2), T(3)), []Stmt{}}}, HasElse: true, Else: []Stmt{}}, pr(sl("after"))},
+		"if-chain-empty-else":           {If{Branches: []IfBranch{{Bf(1, false), []Stmt{pr(sl("br1"))}}, {Bf(2, false), []Stmt{pr(sl("br2"))}}}, HasElse: true, Else: []Stmt{}}, pr(sl("after"))},
+		"switch-empty-last-case":        {def("x", il(2)), Switch{Tag: vr("x"), Cases: []SwitchCase{{E: T(1), Body: []Stmt{pr(sl("c1"))}}, {E: T(2), Body: []Stmt{}}}}, pr(sl("after"))},
+		"switch-empty-trailing-cases":   {def("x", il(9)), Switch{Tag: vr("x"), Cases: []SwitchCase{{E: T(1), Body: []Stmt{pr(sl("c1"))}}, {E: T(2), Body: []Stmt{}}, {E: T(3), Body: []Stmt{}}}}, pr(sl("after"))},
+		"switch-tagless-empty-cases":    {Switch{Cases: []SwitchCase{{E: Bf(1, false), Body: []Stmt{}}, {E: Bf(2, true), Body: []Stmt{}}, {E: Bf(3, true), Body: []Stmt{}}}}, pr(sl("after"))},
+		"switch-empty-default":          {def("x", il(5)), Switch{Tag: vr("x"), Cases: []SwitchCase{{E: T(1), Body: []Stmt{pr(sl("c1"))}}, {E: T(2), Body: []Stmt{}}, {Default: true, Body: []Stmt{}}}}, pr(sl("after"))},
 		"switch-case-expressions":       {def("x", il(2)), Switch{Tag: vr("x"), Cases: []SwitchCase{{E: T(1), Body: []Stmt{pr(sl("c1"))}}, {E: T(2), Body: []Stmt{pr(sl("c2")), ExprStmt{T(22)}}}, {Default: true, Body: []Stmt{pr(sl("d"))}}, {E: T(3), Body: []Stmt{pr(sl("c3"))}}}}},
 		"switch-tagless":                {Switch{Cases: []SwitchCase{{E: Bf(1, false), Body: []Stmt{pr(sl("c1"))}}, {Default: true, Body: []Stmt{pr(sl("d")), ExprStmt{T(5)}}}, {E: Bf(2, false), Body: []Stmt{pr(sl("c2"))}}}}},
 		"switch-string":                 {def("k", sl("b")), Switch{Tag: vr("k"), Cases: []SwitchCase{{E: Sf(1, "a"), Body: []Stmt{pr(sl("ca"))}}, {E: Sf(2, "b"), Body: []Stmt{pr(sl("cb"))}}, {E: Sf(3, "b"), Body: []Stmt{pr(sl("cb2"))}}}}},
